@@ -375,6 +375,57 @@ func c03(c *ctx) {
 		}
 	}
 	r.Analysed["process_wide_globals"] = len(ks)
+
+	// ------------------------------------------------------------------ R7
+	c.ruleBlockCacheComplete("R7")
+}
+
+// ruleBlockCacheComplete (C03.R7 / C11.R9): the process-wide block cache is read by consensus code through
+// GetBlockByHeight (certificate results re-scan old blocks; blocks are served to syncing peers). Every entry must therefore
+// be a COMPLETE block result: the block being indexed, or what getBlock(key, transactions=true) loaded. A header-only
+// entry makes every later full read of that height in the process return a block without transactions — results then
+// depend on which RPC calls a node happened to serve.
+func (c *ctx) ruleBlockCacheComplete(R string) {
+	r := c.r
+	r.Rule(R, "FLOW", "the process-wide block cache only receives complete block results: every blockCache.Add stores the block being indexed (IndexBlock's parameter) or the result of getBlock(..., transactions=true)", 2)
+	indexBlock := c.fn("store.(*Indexer).IndexBlock")
+	getBlock := c.fn("store.(*Indexer).getBlock")
+	if indexBlock == nil || getBlock == nil {
+		return
+	}
+	n := 0
+	for _, f := range c.p.Funcs {
+		if pkgShort(f) != "store" || isTestFile(c.p, f.Pos()) {
+			continue
+		}
+		instrs(f, func(in ssa.Instruction) {
+			cc := callCommon(in)
+			if cc == nil || cc.IsInvoke() || len(cc.Args) < 3 {
+				return
+			}
+			sc := cc.StaticCallee()
+			if sc == nil || origin(sc).Name() != "Add" || c.p.path(cc.Args[0]) != "store.blockCache" {
+				return
+			}
+			n++
+			val := stripLift(cc.Args[2])
+			ok, how := false, c.p.path(val)
+			if how == "$1" && fnName(enclosing(f)) == fnName(indexBlock) {
+				ok = true // the block handed to IndexBlock (the parameter, possibly spilled to a cell because closures capture it)
+			}
+			switch v := val.(type) {
+			case *ssa.Extract:
+				if call, isCall := v.Tuple.(*ssa.Call); isCall && callIs(call.Common(), getBlock) && v.Index == 0 {
+					if b, isConst := constBoolArg(call, 1); isConst && b {
+						ok = true
+					}
+				}
+			}
+			r.Check(ok, R+"/blockCache.Add/"+fnName(enclosing(f)), c.p.Pos(in.Pos()), "caches a complete block result ("+how+")",
+				fnName(enclosing(f))+" puts "+how+" into the process-wide block cache, which is not a complete block result (the indexed block or getBlock(..., true)): later full reads of that height — certificate results, blocks served to peers — would lose the transactions")
+		})
+	}
+	r.Check(n >= 1, R+"/blockCache.Add/sites", c.p.Pos(indexBlock.Pos()), fmt.Sprintf("%d sites fill the block cache", n), "no blockCache.Add found (rule needs re-reading)")
 }
 
 // counterIncrements: if v is a loop counter (a phi, possibly through other phis), the `x + 1` operations that feed it.
@@ -715,4 +766,5 @@ func c08(c *ctx) {
 			})
 		}
 	}
+	c.ruleRollbackPrunesAllPrefixes("R6")
 }
